@@ -3,6 +3,8 @@ import PybropsModel.Model.LabelMat
 import PybropsModel.Model.LabelMatN
 import PybropsModel.Model.LabelHeap
 import PybropsModel.Model.LabelMatX
+import PybropsModel.Model.LabelMatRepair
+import PybropsModel.Model.LabelMatFill
 import Std.Data.HashSet
 open Lean
 
@@ -107,6 +109,8 @@ def opStep : J.Op := fun j => do
   let kind ← J.fieldD op "kind" decKind .taxa
   let fill ← J.fieldD op "fill" J.int 0
   let noneLab ← J.fieldD op "none_code" J.int (-1)
+  -- repair-validation mode: the square bundle's insert / incorp / concat as proposed in patches/C03_D14.diff, patch_D14b.diff
+  let repaired ← J.fieldD op "repaired" J.bool false
   let pad (k : Kind) (v : Operand Int Int) : Operand Int Int := padOperand noneLab sch k s v
   -- generic form: resolve the axis; specific form: the named bundle
   let run {β : Type} (selfCall : Bool) (f : Kind → R β) : R β :=
@@ -141,17 +145,32 @@ def opStep : J.Op := fun j => do
     pure <| encR encSt "st" (run false fun k => appendK sch k fill (pad k v) s)
   | "insert" =>
     let v ← J.field op "operand" decOperand
-    let o ← J.field op "obj" decInsX
+    let oj ← J.field op "obj" pure
+    if repaired then
+      let o ← decIns oj
+      return encR encSt "st" (run false fun k => insertRepairedK sch k fill o (pad k v) s)
+    if let some i ← J.fieldOpt oj "int0d" J.int then
+      return encR encSt "st" (run false fun k => insertZeroDimK sch k i (pad k v) s)
+    let o ← decInsX oj
     pure <| encR encSt "st" (run false fun k => insertXK sch k o (pad k v) s)
   | "incorp" =>
     let v ← J.field op "operand" decOperand
-    let o ← J.field op "obj" decInsX
+    let oj ← J.field op "obj" pure
+    if repaired then
+      let o ← decIns oj
+      return encR encSt "st" (run true fun k => incorpRepairedK sch k fill o (pad k v) s)
+    if let some i ← J.fieldOpt oj "int0d" J.int then
+      return encR encSt "st" (run true fun k => incorpZeroDimK sch k i (pad k v) s)
+    let o ← decInsX oj
     pure <| encR encSt "st" (run true fun k => incorpXK sch k o (pad k v) s)
   | "concat" =>
     let others ← J.field op "others" (J.list decSt)
     let padSt (k : Kind) (t : S) : S :=
       let q := match sch.axes k with | a :: _ => axLen a t.mat | [] => 0
       t.setBundle k { (t.bundle k) with cols := padCols noneLab k q (s.bundle k).cols (t.bundle k).cols }
+    if repaired then
+      return encR encSt "st" (run false fun k =>
+        concatRepairedK sch k fill (others.map (fun t => pad k { mat := t.mat, cols := (t.bundle k).cols })) s)
     pure <| encR encSt "st" (run false fun k => concatK sch k (s :: others.map (padSt k)))
   | "genotype" =>
     let masked ← J.field op "masked" J.bool
@@ -174,9 +193,14 @@ def opSpecStep : J.Op := fun j => do
     (pre :: operands).foldl (fun acc s => (lcells sch s).foldl (fun a c => a.insert c) acc) {}
   let bad := (lcells sch post).filter (fun c => !(src.contains c || fill == some c.val))
   let consistent := consistentOK sch post
-  let attached := bad.isEmpty
+  -- growing a square matrix: the fill value may only stand in the cross blocks, i.e. the result holds exactly as many
+  -- fill cells as its sources plus the cells no source supplies (`fillBalance`)
+  let filled := fillBalance fill (lcells sch pre).length ((lcells sch pre).map (·.val))
+    (operands.map (fun o => ((lcells sch o).length, (lcells sch o).map (·.val))))
+    (lcells sch post).length ((lcells sch post).map (·.val))
+  let attached := bad.isEmpty && filled
   let partition := groupedOK sch post
-  let detail := if attached then "" else
+  let detail := if bad.isEmpty then (if filled then "" else "data cells of the receiver or of an operand were replaced by the fill value") else
     match bad.head? with
     | some c => s!"cell value {c.val} carries labels {repr c.i0} {repr c.i1} {repr c.i2} that no input cell of that value has"
     | none => ""
@@ -320,9 +344,12 @@ def opNdSpec : J.Op := fun j => do
     (pre :: operands).foldl (fun acc s => (LabelMatN.lcellsN s).foldl (fun a c => a.insert c) acc) {}
   let bad := (LabelMatN.lcellsN post).filter (fun c => !(src.contains c || fill == some c.val))
   let consistent := LabelMatN.consistentN post
-  let attached := bad.isEmpty
+  let filled := fillBalance fill (LabelMatN.lcellsN pre).length ((LabelMatN.lcellsN pre).map (·.val))
+    (operands.map (fun o => ((LabelMatN.lcellsN o).length, (LabelMatN.lcellsN o).map (·.val))))
+    (LabelMatN.lcellsN post).length ((LabelMatN.lcellsN post).map (·.val))
+  let attached := bad.isEmpty && filled
   let partition := LabelMatN.groupedN post
-  let detail := if attached then "" else
+  let detail := if bad.isEmpty then (if filled then "" else "data cells of the receiver or of an operand were replaced by the fill value") else
     match bad.head? with
     | some c => s!"cell value {c.val} carries taxa labels {repr c.tax} and trait label {repr c.trt} that no input cell of that value has"
     | none => ""
